@@ -417,6 +417,47 @@ def run_step_case(item, shrink=True):
     return res
 
 
+def run_later_case(item):
+    """an operation on the wrapper that works before an observer call must still work after it: here
+    `copy.deepcopy(model)` on a wrapper that has not run a forward with autograd (a model that is evaluated under
+    no_grad, logged, costed and then cloned / handed to an EMA or checkpoint-by-copy helper)"""
+    import copy
+    import torch
+    import warnings
+    warnings.filterwarnings('ignore')
+    torch.set_num_threads(1)
+    common.use_repo_on_path()
+    spec = item['spec']
+    method = om.METHOD[spec['kind']]
+    slots = slot_specs(spec)
+    w, shape = build_for_walk(item)
+    x = om.data(shape, spec['seed'] + 4)
+    with torch.no_grad():
+        w(x)
+
+    def clone_ok():
+        try:
+            copy.deepcopy(w)
+            return None
+        except Exception as e:
+            return '%s: %s' % (type(e).__name__, str(e)[:100])
+    res = {'violations': [], 'before': clone_ok(), 'after': {}}
+    if res['before'] is not None:
+        return res
+    for op in item['ops']:
+        do_op(w, op, slots, x)
+        err = clone_ok()
+        res['after'][op] = err
+        if err is not None:
+            res['violations'].append({'key': 'C18:%s:%s:later-deepcopy-fails' % (method, {'getcost': 'cost', 'getcostb': 'cost'}.get(op, op)),
+                                      'what': 'copy.deepcopy(model) works before %s and raises afterwards (%s): the observer left '
+                                              'tensors in the live modules that cannot be copied' % (op, err),
+                                      'case': {'kind': 'later', 'spec': spec, 'train': item['train'], 'disable': False,
+                                               'mixed': None, 'ops': [op]}})
+            break
+    return res
+
+
 def _step_cases(chk):
     rng = chk.rng
     items = []
@@ -526,9 +567,33 @@ def run(chk):
     chk.trusted += ['harness/fingerprint.py: the fingerprint reads state_dict tensors, per-module flags, instance '
                     'attributes and the torch RNG state; it restores what its own probing forward disturbs',
                     'torch RNG and state_dict mechanics (modelled: an RNG position, a version number per component)']
+    chk.assumptions += [
+        'The global torch RNG is not among the observables of C18 (DESIGN section 6): export() of PIT and MPS builds new, '
+        'randomly initialised layers before overwriting their weights and so advances the RNG; a *stochastic* forward '
+        '(dropout, Gumbel noise) after export() therefore draws other random numbers than it would have. This is recorded '
+        'as an observation, predicted by the model (component rng) and not demanded; every comparison with a twin wrapper is '
+        'made where no forward draws random numbers, or from the same seed before the forward.',
+        'Instance attributes that an observer adds to layers without influencing any observable (output_shape written by '
+        'the full_cost / SuperNet branch cost paths) are observations, not violations (DESIGN appendix E).',
+        'PIT.export(add_bn=False) behaves exactly like export() (it clears an attribute, following_bn_args, that no layer '
+        'has): for C18 it is one more observer; that the flag has no effect is outside C18 (it is a statement about the '
+        'exported network, not about the NAS model).']
     chk.prove()
     items = _cases(chk)
     results = common.pmap(run_walk, items)
+    # ---- operations that worked before an observer call still work after it
+    litems = []
+    for kind in om.KINDS:
+        for cost in ('single', 'dict'):
+            spec = om.random_spec(chk.rng, kind, cost=cost)
+            c = 'cost' if cost == 'single' else 'getcost'
+            for ops in (['summary'], ['export'], [c]):
+                litems.append({'spec': spec, 'train': 0, 'ops': ops, 'disable': False, 'mixed': None})
+    for it, r in zip(litems, common.pmap(run_later_case, litems)):
+        for v in r['violations']:
+            chk.violation(v['key'], v['what'], v['case'])
+        chk.count((json.dumps(it['spec'], sort_keys=True), tuple(it['ops']), 'later'), bucket='later-ops-leg',
+                  nontrivial=r['before'] is None)
     # ---- the optimizer step that follows an observer call
     sitems = _step_cases(chk)
     sresults = common.pmap(run_step_case, sitems)
@@ -639,6 +704,10 @@ def _shrink(case, key):
 def replay(data):
     common.use_repo_on_path()
     case = data['case']
+    if case.get('kind') == 'later':
+        r = run_later_case({'spec': case['spec'], 'train': case['train'], 'ops': case['ops']})
+        print('deepcopy before:', r['before'] or 'ok', '| after:', r['after'])
+        return 1 if data.get('key') in [v['key'] for v in r['violations']] else 0
     if case.get('kind') == 'step':
         r = run_step_case({'spec': case['spec'], 'train': case['train'], 'disable': case.get('disable', False),
                            'mixed': case.get('mixed'), 'ops': case['ops']})
